@@ -47,6 +47,11 @@ def is_noise_span(sp):
     return False
 
 
+def derive_generated(sp):
+    """span inside a #[derive(..)] expansion"""
+    return any(m.startswith("Derive:") for m in sp.get("mac", []))
+
+
 def loc(sp):
     f = sp.get("f", "?")
     if f.startswith("/repo/"):
@@ -379,7 +384,37 @@ class Facts:
     def root_of(self, body):
         d = body.cdef
         i = d.find("::{closure")
+        j = d.find("::{promoted")
+        if i < 0 or (0 <= j < i):
+            i = j if j >= 0 else i
         return d if i < 0 else d[:i]
+
+    def code_and_promoted(self):
+        """code bodies plus the promoted constants of code bodies (for who-constructs rules)"""
+        out = []
+        for b in self.bodies:
+            if b.kind in ("Fn", "AssocFn", "Closure", "SyntheticCoroutineBody"):
+                out.append(b)
+            elif b.kind == "Promoted":
+                p = self.by_def.get(b.parent)
+                if p is not None and p.kind in ("Fn", "AssocFn", "Closure", "SyntheticCoroutineBody"):
+                    out.append(b)
+        return out
+
+    def aggregates(self, adt, variant=None, skip_derive=True):
+        """[(body, bb, stmt)] constructing ADT (optionally a variant), including in promoted constants"""
+        out = []
+        for b in self.code_and_promoted():
+            if skip_derive and derive_generated(b.span):
+                continue
+            for bi, blk in enumerate(b.blocks):
+                if blk.get("cleanup"):
+                    continue
+                for s in blk["s"]:
+                    if s["k"] == "assign" and s["rv"]["k"] == "agg" and s["rv"].get("ak") == "adt" and canon(s["rv"]["adt"]) == adt \
+                            and (variant is None or s["rv"]["variant"] == variant):
+                        out.append((b, bi, s))
+        return out
 
     def groups(self):
         g = defaultdict(list)
@@ -652,6 +687,11 @@ class ExprBuilder:
 
 
 def mkphi(alts):
+    alts = tuple(alts)
+    if len(alts) > 1:
+        keep = tuple(a for a in alts if not (a[0] == "unknown" and a[1] == "variant-mismatch"))
+        if keep:
+            alts = keep
     flat = []
     for a in alts:
         if a[0] == "phi":
